@@ -100,6 +100,20 @@ def run(ctx):
     rep.ob('G', K.key(base, 'split', 'rejects(sections>len)-before-slicing'), ok_high, high or fn,
            '' if ok_high else 'no `raise ValueError` guarded by exactly %s > len(self) dominates the slicing%s' % (
                sec, '; found %s' % wrong[0][1] if wrong else ''))
+    # PS: the sections are a function of len(self) and `sections` alone: split consults no other state
+    state = []
+    for n in A.walk_local(fn):
+        if isinstance(n, ast.Attribute) and isinstance(n.ctx, (ast.Load, ast.Store)) and (
+                A.is_name(n.value, 'self') or A.src(n.value) in ('self.__class__', 'type(self)', 'Dataset')):
+            if n.attr in ('__class__',):
+                continue
+            state.append(n)
+        if isinstance(n, (ast.Global, ast.Nonlocal)):
+            state.append(n)
+    rep.ob('PS', K.key(base, 'split', 'sections-depend-only-on(len(self),sections)'), not state, state[0] if state else fn,
+           '' if not state else 'split reads or writes state besides len(self) (%s): sections computed for one dataset / call '
+           'leak into another (a cache keyed by `sections` alone returns the index ranges of a dataset of another length)'
+           % A.short(state[0]))
     # PV
     rets = [r for r in flow.returns_of(fn) if r.value is not None]
     ok_pv = False
